@@ -63,6 +63,11 @@ def program(name, direction):
         # context: a call/tail to a (near or far) second label first, the target label sits
         # directly on a collapsing li, the pseudo-instruction under test refers back to it
         return ('tail F\ncall F\nL:\nli x9, 5\n%s\ninclude_bytes G0.bin\nF:\naddi x0 x0 0' % ins), 5, 3
+    if name in LABELLED and direction == 'al-fwd':
+        # an align that is already satisfied (or needs 2 bytes with -c) between the transfer and its label
+        return '%s\nalign 4\nL:\naddi x0 x0 0\ninclude_bytes G0.bin' % ins, 1, 3
+    if name in LABELLED and direction == 'al-bwd':
+        return 'add x20 x21 x22\nalign 4\nL:\ninclude_bytes G0.bin\nalign 2\n%s' % ins, 6, 3
     if name in LABELLED:
         if direction == 'fwd':
             return '%s\ninclude_bytes G0.bin\nL:\naddi x0 x0 0' % ins, 1, 3
